@@ -7562,7 +7562,7 @@ FileDirectory_getFA(FileDirectory self)
 }
 
 
-uint8_t
+int
 FileDirectory_getLengthOfFile(FileDirectory self)
 {
     return self->lengthOfFile;
